@@ -14,6 +14,8 @@ import (
 func init() {
 	zzsv.Register("ZZ_C07_Histories", ZZ_C07_Histories)
 	zzsv.Register("ZZ_C07_Context", ZZ_C07_Context)
+	zzsv.Register("ZZ_C07_DeepRecursion", ZZ_C07_DeepRecursion)
+	zzsv.Register("ZZ_C07_LongHistory", ZZ_C07_LongHistory)
 }
 
 type zzC07Obj struct {
@@ -157,5 +159,87 @@ func ZZ_C07_Context(sv *zzsv.T) {
 	zzCompareTwo(sv, "C07.ctx", used, fresh, o1, o2, e1, e2, trUsed, trFresh, []string{"n", "x"})
 	if mode == 0 {
 		sv.Assert("C07.ctx.cancelled_context_prevents_the_run", e1 != nil && len(trUsed) == 0)
+	}
+}
+
+// ZZ_C07_DeepRecursion: "whatever happened in earlier runs" includes a run
+// that went very deep: a recursion of depth D (1 100 quick, 3 000 thorough)
+// that ends - at the bottom - normally, with a run-time error, with a
+// panic() or with an unknown function; afterwards a shallow run on the used
+// evaluator agrees with a fresh evaluator, for every value the script
+// computes with.
+func ZZ_C07_DeepRecursion(sv *zzsv.T) {
+	sv.Param("engine.msteps", 400, 1200)
+	bottoms := []string{"return B;", "return B / Z;", "panic(\"bottom\");", "return nosuch(B);", "foreach v in [1, 2] { if (v == 2) { return B / Z; } } return 0;"}
+	bottom := bottoms[sv.Choice("bottom", len(bottoms))]
+	src := "function d(k) { if (k <= 0) { " + bottom + " } return d(k - 1) + 1; } return d(N);"
+	sv.Note("script", src)
+	depth := sv.Param("deep.depth", 1100, 3000)
+	b := sv.Int64("B")
+	mk := func() *Eval {
+		e := New(src)
+		e.SetVariable("B", &object.Integer{Value: b})
+		e.SetVariable("Z", &object.Integer{Value: 0})
+		e.SetVariable("N", &object.Integer{Value: int64(depth)})
+		return e
+	}
+	used := mk()
+	sv.Assume(used.Prepare() == nil)
+	_, err0 := used.Execute(nil)
+	sv.Observe("deep.err", err0 != nil)
+	// (whether so deep a recursion succeeds is not C07's business - a depth
+	// limit would be a legitimate feature; what it leaves behind is)
+	if bottom != "return B;" {
+		sv.Assert("C07.deep.fails", err0 != nil)
+	}
+	fresh := mk()
+	sv.Assume(fresh.Prepare() == nil)
+	for _, e := range []*Eval{used, fresh} {
+		e.SetVariable("N", &object.Integer{Value: 3})
+		e.SetVariable("Z", &object.Integer{Value: 1})
+	}
+	o1, e1 := used.Execute(nil)
+	o2, e2 := fresh.Execute(nil)
+	zzDescribe(sv, "used", o1, e1)
+	zzDescribe(sv, "fresh", o2, e2)
+	zzCompareTwo(sv, "C07.deep", used, fresh, o1, o2, e1, e2, nil, nil, []string{"B", "N"})
+	sv.Assert("C07.deep.scopes_after", used.environment.ScopeDepth() == fresh.environment.ScopeDepth())
+}
+
+// ZZ_C07_LongHistory: a long history (1 000 runs quick, 4 000 thorough) of
+// runs that fail two calls deep inside a loop - what each one abandons must
+// not add up: afterwards the used evaluator agrees with a fresh one on a run
+// that succeeds and on one that fails.
+func ZZ_C07_LongHistory(sv *zzsv.T) {
+	sv.Param("engine.msteps", 1000, 4000)
+	faults := []string{"return p / Z;", "panic(\"deep\");", "return nosuch(p);", "foreach q in [1, 2] { return q / Z; }"}
+	fault := faults[sv.Choice("fault", len(faults))]
+	src := "function inner(p) { " + fault + " } function outer(p) { foreach v in [p, p] { x = inner(v) + 1; } return x; } n = n + 1; return outer(F) + n;"
+	sv.Note("script", src)
+	runs := sv.Param("history.runs", 1000, 4000)
+	f := sv.Int64("F")
+	used := New(src)
+	used.SetVariable("n", &object.Integer{Value: 0})
+	used.SetVariable("Z", &object.Integer{Value: 0})
+	sv.Assume(used.Prepare() == nil)
+	obj := zzC07Obj{F: f}
+	for i := 0; i < runs; i++ {
+		_, err := used.Execute(obj)
+		if i == 0 {
+			sv.Assert("C07.long.history_fails", err != nil)
+		}
+	}
+	fresh := New(src)
+	fresh.SetVariable("n", &object.Integer{Value: int64(runs)})
+	fresh.SetVariable("Z", &object.Integer{Value: 0})
+	sv.Assume(fresh.Prepare() == nil)
+	sv.Assert("C07.long.scopes", used.environment.ScopeDepth() == fresh.environment.ScopeDepth())
+	for _, z := range []int64{1, 0} {
+		used.SetVariable("Z", &object.Integer{Value: z})
+		fresh.SetVariable("Z", &object.Integer{Value: z})
+		o1, e1 := used.Execute(obj)
+		o2, e2 := fresh.Execute(obj)
+		zzDescribe(sv, "used", o1, e1)
+		zzCompareTwo(sv, "C07.long", used, fresh, o1, o2, e1, e2, nil, nil, []string{"n", "x"})
 	}
 }
